@@ -304,7 +304,11 @@ macro_rules! send_data {
 
             if $segment_iter_item.seq_nr() > $self.last_sent_seq_nr {
                 $self.last_sent_seq_nr = $segment_iter_item.seq_nr();
-                $self.seq_nr = $segment_iter_item.seq_nr() + 1;
+                // After an RTO rewound last_sent_seq_nr this is a retransmission: seq_nr (the next
+                // number to assign, e.g. to our FIN) must never move backwards.
+                if $segment_iter_item.seq_nr() + 1 > $self.seq_nr {
+                    $self.seq_nr = $segment_iter_item.seq_nr() + 1;
+                }
             }
 
             // rfc6298 5.1
